@@ -382,6 +382,15 @@ def stage_oracle(ctx: Ctx, progs):
             after = root.src
             code = op.get('code') if isinstance(op.get('code'), str) else None
             ctx.tick((hash(before) & 0xffffff, json.dumps(edits.op_brief(op), default=repr, sort_keys=True)), 'op:' + op['kind'])
+            if edits.eof_trailing_space_case(before, op) or edits.continuation_semicolon_case(before, op):
+                # the recorded C01 findings: the splice can leave tree and source out of step although this step's tokens look fine; judging LATER steps of
+                # this history would only re-report that under other names
+                from lib.oracle import reparse_diffs as _rd
+                dd = _rd(root)
+                if dd:
+                    ctx.violation('stmt-put-at-eof-without-newline-with-trailing-space-trivia' if edits.eof_trailing_space_case(before, op) else 'stmt-put-before-continuation-semicolon-with-trailing-trivia',
+                                  'a statement-level edit left source and tree out of step', {'start_src': src, 'history': hist, 'before': before, 'after': after, 'last_op': edits.op_brief(op), 'diffs': dd})
+                    break
             try:
                 ast.parse(after)
                 parses = True
@@ -406,6 +415,11 @@ def stage_oracle(ctx: Ctx, progs):
                 ctx.violation(sig, 'an edit changed tokens or comments outside the edited element',
                               {'start_src': src, 'history': hist, 'before': before, 'after': after, 'last_op': edits.op_brief(op), **v})
                 break
+            if parses:
+                from lib.oracle import reparse_diffs as _rd2
+                if _rd2(root):
+                    break     # a documented incomplete node (e.g. an Assign whose only target was removed without norm): tree and source are out of step by design,
+                              # whether edits keep them in step is C01's subject (with norm); later steps of this history would only inherit the state
     ctx.extra['edits_judged_by_window'] = judged
 
 
